@@ -180,6 +180,28 @@ class Contract(Part):
             starts = [[rng.uniform(b[0], b[1]) for b in bounds] for _ in range(4 if ctx.quick else 20)]
             if coords is not None and len(coords) == n:
                 starts.append([min(b[1], max(b[0], c + 0.01 * (b[1] - b[0]))) for c, b in zip(coords, bounds)])
+            # coordinate-wise descent on a grid with zooming (finds the global optimum of separable functions such as Michalewicz,
+            # Schwefel, Rastrigin, where gradient searches stop in one of many local basins); 2 sweeps, then polished like the others
+            if n <= (10 if ctx.quick else 40):
+                x = [(b[0] + b[1]) / 2.0 for b in bounds]
+                fx = obj(x)
+                for sweep in range(2):
+                    for j in range(n):
+                        lo, hi = bounds[j]
+                        for zoom in range(3):
+                            grid = [lo + (hi - lo) * t / 60.0 for t in range(61)]
+                            best_v, best_f = x[j], fx
+                            for g in grid:
+                                y = list(x)
+                                y[j] = g
+                                fy = obj(y)
+                                if fy < best_f:
+                                    best_v, best_f = g, fy
+                            x[j], fx = best_v, best_f
+                            w = (hi - lo) / 30.0
+                            lo, hi = max(bounds[j][0], best_v - w), min(bounds[j][1], best_v + w)
+                starts.append(x)
+                emit(x, "coordinate-search")
             for s in starts:
                 try:
                     r = minimize(obj, s, method="L-BFGS-B", bounds=[tuple(b) for b in bounds], options={"maxiter": 60})
